@@ -130,7 +130,7 @@ theorem create_pushes {db : Db} {hasStorage : Addr → Bool} {s s' : JState} {ca
     (h : createAccountCheckpoint s caller a hs bal specId = some (s', res)) :
     match res with
     | .error _ => Pushes db s s' []
-    | .ok cp => cp = (checkpoint s).2 ∧ ∃ es, Pushes db (checkpoint s).1 s' es := by
+    | .ok cp => cp = (checkpoint s).2 ∧ ∃ es, Pushes db (checkpoint s).1 s' es ∧ NoWarm es := by
   simp only [createAccountCheckpoint, bind, Option.bind] at h
   generalize hsc : (checkpoint s).1 = sc at h
   have hscs : sc.state = s.state := by rw [← hsc]; rfl
@@ -187,7 +187,7 @@ theorem create_pushes {db : Db} {hasStorage : Addr → Bool} {s s' : JState} {ca
                 pushEntry (setAcct (setAcct s3 a { acc3 with info := { acc3.info with balance := acc3.info.balance + bal, nonce := n4 } })
                     caller { c with info := { c.info with balance := bsub c.info.balance bal } })
                   (.balanceTransfer caller a bal) = some s6 →
-                ∃ es, Pushes db (checkpoint s).1 s6 es := by
+                ∃ es, Pushes db (checkpoint s).1 s6 es ∧ NoWarm es := by
               intro n4 c s6 hc hp6
               have hcb : ¬ caller = a → bal ≤ c.info.balance := by
                 intro hca
@@ -196,7 +196,8 @@ theorem create_pushes {db : Db} {hasStorage : Addr → Bool} {s s' : JState} {ca
               obtain ⟨hu, hb6⟩ := create_tail (db := db) n4 hs3 hlt hc hcb hbal3 hp6
               have q6 := pushEntry_some hp6
               refine ⟨.balanceTransfer caller a bal :: ((if acc.touched then [] else [.accountTouched a]) ++ [.accountCreated a]),
-                ⟨fun t r hj => ?_, ?_, ?_, ?_, ?_, ?_, fun _ => hb6, ?_, ?_⟩⟩
+                ⟨fun t r hj => ?_, ?_, ?_, ?_, ?_, ?_, fun _ => hb6, ?_, ?_⟩,
+                by cases acc.touched <;> exact ⟨fun b h => by simp at h, fun b k h => by simp at h⟩⟩
               · have := q6.journal _ _ (p3.journal t r hj)
                 rw [this]; rfl
               · rw [q6.spec]; exact p3.spec
